@@ -37,7 +37,7 @@ def flat_names(ms, r, target_of):
 
 
 def run(tier, seed):
-    rep = Report(PID, tier, seed, "proof")
+    rep = Report(PID, tier, seed, "translation_validation")
     po = proof_obligations("WowVerif.Thm.C18", ["wowdrv"])
     add_proof_failures(rep, po)
     objs = wowm.load_tree(os.path.join(REPO, "wow_message_parser/wowm"))
@@ -199,6 +199,7 @@ def run(tier, seed):
     # every generated object is documented
     undocumented = [f"{p[0]}:{p[1]}" for p, os_ in by_pos.items() if p not in covered and any(wowm.is_generated(o) for o in os_)]
     rep.coverage = {
+        "programs": n_obl, "disagreements_checked": n_obl - n_ok,
         "obligations": po["obligations"] + n_obl, "discharged": po["discharged"] + n_ok,
         "checker_cmd": "cd /verif/lean && lake build WowVerif.Thm.C18 && lake env lean WowVerif/Thm/C18.lean; python3 /verif/tools/docs.py",
         "trusted_base": TRUSTED_BASE_COMMON + ["tools/wowm.py (independent wowm front end) and tools/docs.py (markdown / doc comment scraping)", "structural equality of the parsed definitions is evaluated in python"],
@@ -207,7 +208,7 @@ def run(tier, seed):
         "source_objects_documented": len(covered), "generated_objects_without_documentation": len(undocumented), "undocumented_sample": undocumented[:6],
         "evaluations": n_obl + n_rows + n_ex, "distinct_nontrivial": n_obl,
         "rule": "every ```text block of every generated .rs file and every `Wowm Representation` block of every documentation page; every body table; every example",
-        "samples": [{"trace_request": treq[0][:120], "model": tout[0][:160]}] if treq else [],
+        "samples": [{"trace_request": treq[0][:120], "model": tout[0][:160]}] if treq else ["-"],
     }
     rep.assumptions = ["the committed documentation is what the generator emits (C08)", "examples of messages with built-in types outside the generic semantics are compared with the test vectors only"]
     return rep.finish()
